@@ -1,6 +1,5 @@
 from __future__ import annotations
 
-from functools import lru_cache
 from typing import Iterable, Match, Pattern
 
 from cashews._typing import TTL, Key, KeyOrTemplate, OnRemoveCallback, Tag, Tags, Value
@@ -54,13 +53,11 @@ class CommandsTagsWrapper(CommandWrapper):
             **kwargs,
         )
 
-    @lru_cache(maxsize=1)  # noqa: B019
-    def _get_tags_backend(self):
-        return self._get_backend(self._tags_key_prefix)
-
     @property
     def tags_backend(self):
-        return self._get_tags_backend()
+        # resolved on every use: a memo would keep talking to a backend that was replaced by a later
+        # setup() / setup_tags_backend(), or to the wrapper of a transaction that is long over
+        return self._get_backend(self._tags_key_prefix)
 
     def register_tag(self, tag: Tag, key_template: KeyOrTemplate):
         self._tags_registry.register_tag(tag, key_template)
@@ -72,7 +69,8 @@ class CommandsTagsWrapper(CommandWrapper):
     def _on_remove_callback(self) -> OnRemoveCallback:
         async def _callback(keys: Iterable[Key], backend: Backend) -> None:
             for tag, _keys in self._group_by_tags(keys).items():
-                tags_backend = self.tags_backend
+                # the backend the tag set lives in: the one `set_add(_tag:<tag>, ...)` of the tagged write was routed to
+                tags_backend = self._get_backend(self._tags_key_prefix + tag)
                 if tags_backend.is_disable(Command.SET_REMOVE):
                     # the bookkeeping talks to the backend directly, not through the disable middleware:
                     # a disabled set_remove (or a disabled tags backend) must not be issued behind the caller's back
